@@ -989,6 +989,8 @@ func (x *Exec) assumeMapFacts(st *State, mt *types.Map, m Term) {
 	u := x.u
 	c := Select(u.comp(st, mapCardComp(mt.Key(), mt.Elem()), ArrSort(SInt, SInt)), m)
 	u.Assume(Ge(c, IntLit(0)))
+	// the nil map is empty
+	u.Assume(Implies(Eq(m, IntLit(0)), Eq(c, IntLit(0))))
 	// cardinality and domain agree at the two ends: an empty map has no key, a non-empty one has some key
 	ks := u.keySort(mt.Key())
 	dom := Select(u.comp(st, mapDomComp(mt.Key(), mt.Elem()), ArrSort(SInt, ArrSort(ks, SBool))), m)
